@@ -296,12 +296,9 @@ impl<'d> PreparedFields<'d> {
             }
         }
 
-        // So we don't write a spurious end boundary
-        if text_data.is_empty() && streams.is_empty() {
-            boundary = String::new();
-        } else {
-            boundary.push_str("--");
-        }
+        // A form without fields is just the closing delimiter. The boundary is kept in that case
+        // too: `boundary()` and the Content-Type header need it.
+        boundary.push_str("--");
 
         content_len += boundary.len() as u64;
 
